@@ -28,6 +28,11 @@ pub fn tree_is_fixed() -> bool {
     guarded(|| Program::<DeBruijn>::from_flat(&WORD_OVERFLOW).is_ok()).is_ok()
 }
 
+thread_local! {
+    /// message of the last panic caught by `real_flat` (names the panic site)
+    static LAST_PANIC: std::cell::RefCell<String> = std::cell::RefCell::new(String::new());
+}
+
 fn real_flat<T>(bytes: &[u8]) -> String
 where
     T: GenBinder + for<'b> Binder<'b>,
@@ -35,7 +40,10 @@ where
     match guarded(AssertUnwindSafe(|| Program::<T>::from_flat(bytes).map(|p| fprogram(&p)).map_err(|_| ()))) {
         Ok(Ok(w)) => format!("ok {w}"),
         Ok(Err(())) => "err".into(),
-        Err(_) => "panic".into(),
+        Err(m) => {
+            LAST_PANIC.with(|l| *l.borrow_mut() = m);
+            "panic".into()
+        }
     }
 }
 
@@ -242,8 +250,8 @@ fn deep(rep: &mut Report, thorough: bool) {
         Ok(e) => e,
         Err(_) => return,
     };
-    // "modest input": a few KiB.  4 KiB of nesting tags = depth 8192.
-    let depths: &[usize] = if thorough { &[1000, 4096, 8192, 16384] } else { &[1000, 8192] };
+    // "modest input": up to 8 KiB of nesting tags = depth 16384 (32768 is a recorded finding).
+    let depths: &[usize] = if thorough { &[1000, 4096, 8192, 16384, 32768] } else { &[1000, 16384] };
     for kind in ["delay", "lambda", "apply"] {
         for &d in depths {
             rep.evaluations += 1;
@@ -297,6 +305,7 @@ pub fn run(ctx: &Ctx) -> Report {
     let mut reqs = vec![];
     let mut real = vec![];
     let mut meta = vec![];
+    let mut panic_seen: std::collections::BTreeMap<String, usize> = Default::default();
     for (kind, bytes) in &inputs {
         for form in ["db", "ndb", "name"] {
             // all three forms for small inputs, one (rotating) otherwise
@@ -316,12 +325,20 @@ pub fn run(ctx: &Ctx) -> Report {
             }
             if out == "panic" {
                 let h = hex(bytes);
+                let msg = LAST_PANIC.with(|l| l.borrow().clone());
+                let class = if msg.contains("shift left") { "word-shift-overflow" } else if msg.contains("index out of bounds") { "bool-index-out-of-bounds" } else { "other" };
+                rep.count(&format!("panic-class:{class}"));
+                let seen = panic_seen.entry(class.to_string()).or_insert(0usize);
+                *seen += 1;
+                // at most four replays per panic site (all are counted above)
+                if *seen <= 4 || class == "other" {
                 rep.fail(
                     &format!("flat-panic:{form}:{}", if h.len() > 80 { format!("{}…#{}", &h[..64], bytes.len()) } else { h.clone() }),
                     "Program::from_flat panics on this byte string",
                     json!({"form": form, "bytes": h, "generator": kind}),
-                    json!("panic (caught with catch_unwind; dev profile, overflow checks on)"),
+                    json!({"panic": msg, "site": class, "observed_with": "catch_unwind, dev profile (overflow checks on)"}),
                 );
+                }
             }
             reqs.push(format!("flat dec {form} {mode} {}", hex(bytes)));
             real.push(out);
